@@ -6,6 +6,7 @@
    state __init__ leaves it in.  Where __next__ loops (PWrap, PCollapse, PNoRepeats, ...) the fuel of the conclusion
    is the operand's fuel plus a bound on the number of iterations, stated in the theorem. *)
 From Isobar Require Import Base.Prelude Pat.Val Pat.Syntax Pat.Step Pat.StepProofs Pat.Ref Pat.RefProofs Pat.FuelMono Pat.RefProofs2.
+From Isobar Require Import Pat.IterProofs Pat.ResetProofs Pat.RefProofs3.
 From Isobar Require Import Props.C10.
 From Coq Require Import String QArith.
 Open Scope Z_scope.
@@ -72,7 +73,53 @@ Section AnyEngine.
   Theorem C10_subsequence : forall f c s off n, Den f c s ->
     Den (S (S (f + off))) (PSubsequence (AP c) (AV (VInt (Z.of_nat off))) (AV (VInt (Z.of_nat n))) 0 []) (sem_subsequence off n s).
   Proof. exact (subsequence_den binop LMAX). Qed.
+
+  (* PConcatenate([p0, p1, ...]), at least one input, all finite: their values one after the other (inputs without
+     values are skipped; one unit of fuel per input that ends) *)
+  Theorem C10_concatenate : forall f c0 l0 cs ls, Den f c0 (Fin l0) -> Forall2 (fun c l => Den f c (Fin l)) cs ls ->
+    Den (S (f + List.length cs + 1)) (PConcatenate (AL (map AP (c0 :: cs))) 0) (Fin (ref_concatenate (l0 :: ls))).
+  Proof. exact (concatenate_den binop LMAX). Qed.
+
+  (* Operands that the class RESETS (PReverse and PPingPong in their constructor, PReset in __next__) have to be objects
+     that reset() rewinds: [Resets f c] — c is as new, and reset() after any number of calls gives c back.  Property C04
+     proves exactly that of every object of its fragment [rpat] *)
+  Theorem C10_resettable : forall f c, rpat c -> reset binop LMAX f c = Yield c -> Resets binop LMAX f c.
+  Proof. exact (Resets_rpat binop LMAX). Qed.
+
+  (* PReverse(p): the constructor succeeds (fuel F above the operand's fuel and the number of values: list(p) drains p
+     twice) and the object denotes the values of p in reverse order *)
+  Theorem C10_reverse : forall f c l F, Den f c (Fin l) -> Resets binop LMAX f c -> (f + List.length l + 3 <= F)%nat ->
+    exists p, construct binop LMAX F CReverse [AP c] = Yield p /\ forall g, Den (S g) p (Fin (ref_reverse l)).
+  Proof. exact (reverse_den binop LMAX). Qed.
+
+  (* PPingPong(p, count): the constructor succeeds (p has at most Pattern.LENGTH_MAX values) and the object denotes
+     p forwards and back count times, ending on the first value; an input of fewer than two values is played as it is *)
+  Theorem C10_pingpong : forall f c l count F, Den f c (Fin l) -> Resets binop LMAX f c -> (List.length l <= LMAX)%nat -> (f + 3 <= F)%nat ->
+    exists p, construct binop LMAX F CPingPong [AP c; AV (VInt (Z.of_nat count))] = Yield p /\
+              forall g, Den (S g) p (Fin (ref_pingpong count l)).
+  Proof. exact (pingpong_den binop LMAX). Qed.
+
+  (* PReset(p, trigger), trigger a stream of ints and rests: output j is value number (ridx trigger j) of p — the index
+     restarts at 0 whenever the trigger is positive — until the trigger ends.  Stated call by call, because over a
+     finite p the outputs may be StopIteration and then values again (after the next restart) *)
+  Theorem C10_reset : forall f c s ct st, Den f c s -> Resets binop LMAX f c -> Den f ct st ->
+    (forall j v, at_ st j = Yield v -> v = VNone \/ exists t, v = VInt t) ->
+    forall j, out binop LMAX (S (S f)) j (PReset (AP c) (AP ct)) =
+              match at_ st j with Yield _ => at_ s (ridx st j) | o => o end.
+  Proof. exact (reset_out binop LMAX). Qed.
+
+  (* ... and as a denotation when p is endless *)
+  Theorem C10_reset_endless : forall f c g ct st, Den f c (Inf g) -> Resets binop LMAX f c -> Den f ct st ->
+    (forall j v, at_ st j = Yield v -> v = VNone \/ exists t, v = VInt t) ->
+    Den (S (S f)) (PReset (AP c) (AP ct)) (sem_reset g st).
+  Proof. exact (reset_den binop LMAX). Qed.
 End AnyEngine.
+Print Assumptions C10_concatenate.
+Print Assumptions C10_resettable.
+Print Assumptions C10_reverse.
+Print Assumptions C10_pingpong.
+Print Assumptions C10_reset.
+Print Assumptions C10_reset_endless.
 Print Assumptions C10_pad_to_multiple.
 Print Assumptions C10_loop.
 Print Assumptions C10_subsequence.
@@ -147,3 +194,36 @@ Example C10_subsequence_nonvacuous :
   /\ outs 40 4 (ECall CSubsequence [EP (ECall CImpulse [EV (VInt 2)]); EV (VInt 3); EV (VInt 3)]) = yields (map zi [0; 1; 0])
   /\ outs 40 2 (ECall CSubsequence [EP (seq_ [1; 2; 3] 1); EV (VInt 2); EV (VInt 5)]) = yields (map zi [3]).
 Proof. repeat split; vm_compute; reflexivity. Qed.
+
+Example C10_concatenate_nonvacuous :
+  ref_concatenate [map zi [1; 2]; []; map zi [3; 4]] = map zi [1; 2; 3; 4]
+  /\ outs 40 5 (ECall CConcatenate [EL [EP (seq_ [1; 2] 1); EP (seq_ [] 1); EP (seq_ [3; 4] 1)]]) = yields (map zi [1; 2; 3; 4]).
+Proof. split; vm_compute; reflexivity. Qed.
+
+(* a PSequence over scalars is an object of the C04 fragment and as new: it meets the hypotheses of the three theorems *)
+Example C10_resettable_nonvacuous :
+  let c := PSequence (AL (map AV (map zi [1; 4; 9]))) (AV (VInt 1)) 0 0 in
+  Den Val.binop 100 5 c (Fin (map zi [1; 4; 9])) /\ Resets Val.binop 100 5 c.
+Proof.
+  cbv zeta. split; [exact (C10_sequence Val.binop 100 3 (map zi [1; 4; 9]) 1)|].
+  apply C10_resettable; [apply RP_leaf; reflexivity | vm_compute; reflexivity].
+Qed.
+
+Example C10_reverse_nonvacuous :
+  ref_reverse (map zi [1; 4; 9]) = map zi [9; 4; 1]
+  /\ outs 40 4 (ECall CReverse [EP (seq_ [1; 4; 9] 1)]) = yields (map zi [9; 4; 1]).
+Proof. split; vm_compute; reflexivity. Qed.
+
+Example C10_pingpong_nonvacuous :
+  ref_pingpong 2 (map zi [1; 4; 9]) = map zi [1; 4; 9; 4; 1; 4; 9; 4; 1]
+  /\ outs 40 10 (ECall CPingPong [EP (seq_ [1; 4; 9] 1); EV (VInt 2)]) = yields (ref_pingpong 2 (map zi [1; 4; 9]))
+  /\ outs 40 6 (ECall CPingPong [EP (seq_ [1; 4] 1); EV (VInt 2)]) = yields (map zi [1; 4; 1; 4; 1])
+  /\ outs 40 2 (ECall CPingPong [EP (seq_ [5] 1); EV (VInt 2)]) = yields (map zi [5]).
+Proof. repeat split; vm_compute; reflexivity. Qed.
+
+(* PReset(PSeries(0, 1, 100), PImpulse(4)) = 0 1 2 3 0 1 2 3 ... (the documented example) *)
+Example C10_reset_nonvacuous :
+  map (ridx (Inf (ref_impulse 4))) (seq 0 10) = [0; 1; 2; 3; 0; 1; 2; 3; 0; 1]%nat
+  /\ outs 40 10 (ECall CReset [EP (ECall CSeries [EV (VInt 0); EV (VInt 1); EV (VInt 100)]); EP (ECall CImpulse [EV (VInt 4)])])
+     = map (fun j => Yield (zi (Z.of_nat (ridx (Inf (ref_impulse 4)) j)))) (seq 0 10).
+Proof. split; vm_compute; reflexivity. Qed.
